@@ -523,6 +523,63 @@ theorem C19_rewrite_session (h : Hdr) (hw : h.WF) (vb : Bytes)
     omega
 
 
+/-- the same with only the first `present` bytes of the record area in the file (a session whose last write was cut
+    short, then closed): the header may advertise more records than are stored -/
+theorem C19_rewrite_session_cut (h : Hdr) (hw : h.WF) (vb : Bytes)
+    (n : Nat) (byReturn doubles : List Nat) (evlrStart nEvlrs : Nat)
+    (hw' : (C07.withStats h n byReturn doubles evlrStart nEvlrs).WF)
+    (hoff32 : base h.vMinor + h.extraHeader.length + vb.length + h.extraVlr.length < 2 ^ 32)
+    (recs : List Rec) (tail : Bytes) (present : Nat) (j : Nat)
+    (hj : j ≤ (encForm (C07.withStats h n byReturn doubles evlrStart nEvlrs) vb).length)
+    (hpos : 0 < h.recLen) (hrec : ∀ r ∈ recs, r.length = h.recLen)
+    (hmn : h.count ≤ n) (hn : n ≤ recs.length) :
+    let img := (encForm (C07.withStats h n byReturn doubles evlrStart nEvlrs) vb).take j ++ (encForm h vb).drop j ++ (recs.flatten ++ tail).take present
+    (∃ e, readFile img = .error e) ∨ (∃ r, readFile img = .ok r ∧ IsPrefix r.records recs) := by
+  intro img
+  have e_minor : (C07.withStats h n byReturn doubles evlrStart nEvlrs).vMinor = h.vMinor := rfl
+  have e_eh : (C07.withStats h n byReturn doubles evlrStart nEvlrs).extraHeader = h.extraHeader := rfl
+  have e_ev : (C07.withStats h n byReturn doubles evlrStart nEvlrs).extraVlr = h.extraVlr := rfl
+  have e_rl : (C07.withStats h n byReturn doubles evlrStart nEvlrs).recLen = h.recLen := rfl
+  have e_ct : (C07.withStats h n byReturn doubles evlrStart nEvlrs).count = n := rfl
+  have l0 := encForm_length h hw vb
+  have l1 := encForm_length _ hw' vb
+  rw [e_minor, e_eh, e_ev] at l1
+  obtain ⟨a1, a2, a3, a4, a5⟩ := encForm_slices h hw vb
+  obtain ⟨b1, b2, b3, b4, b5⟩ := encForm_slices _ hw' vb
+  rw [e_minor] at b1 b4 b5
+  rw [e_minor, e_eh, e_ev] at b2
+  rw [e_rl] at b3
+  rw [e_ct] at b4 b5
+  have hb := base_ge h.vMinor hw.minor
+  have hmin : leNat (slice 25 1 (encForm h vb)) = h.vMinor := by
+    rw [a1, leNat_leBytes_of_lt]; have := hw.minor.2; omega
+  refine C19_header_rewrite _ _ _ recs tail j
+      (base h.vMinor + h.extraHeader.length + vb.length + h.extraVlr.length) h.recLen h.count n
+      (by rw [l0, l1]) l1 (by omega) hj present rfl hpos hrec (by rw [a1, b1]) (by rw [a2, b2])
+      (by rw [a2, leNat_leBytes_of_lt _ _ (by simpa using hoff32)]) (by rw [a3, b3])
+      (by rw [a3, leNat_leBytes_of_lt _ _ (by have := hw.recLen; simpa using this)]) hmn hn ?_
+  rw [hmin]
+  by_cases h4 : h.vMinor ≥ 4
+  · simp only [h4, if_true]
+    refine ⟨b5 h4, a5 h4, ?_⟩
+    have := hw'.count
+    rw [e_ct, e_minor] at this
+    simp only [maxPointCount] at this
+    have h3 : ¬ h.vMinor ≤ 3 := by omega
+    simp only [h3, if_false] at this
+    omega
+  · simp only [h4, if_false]
+    simp only [h4, if_false] at a4 b4
+    refine ⟨b4, a4, ?_⟩
+    have := hw'.count
+    rw [e_ct, e_minor] at this
+    simp only [maxPointCount] at this
+    have h3 : h.vMinor ≤ 3 := by omega
+    simp only [h3, if_true] at this
+    omega
+
+
+
 /-- **a file that ends before its first point record** (an interrupted initial header / VLR write, or a
     truncation inside the header): reading fails or returns no point at all -/
 theorem C19_short_file (img : Bytes) (h : img.length ≤ fileOffset img) :
@@ -727,6 +784,113 @@ theorem C19_writer_crash (h0 : Hdr) (hw0 : h0.WF) (hc0 : h0.count = 0) (vb : Byt
             rw [himg]; exact this
 
 
+/-- **C19, a writer session in which a write failed and the session was then closed.** `write_points` counts
+    the points before handing them to the destination, so after a write that stored only the first `m` bytes
+    of the record area and raised, the clean-up (`close`, from the with-block) rewrites the header advertising
+    `n` records - all of `recs` as the code stands, at most that in any case - over a record area that holds
+    `recs.flatten.take m`; no EVLR is written. Whatever number `k`
+    of bytes of that write stream reached the destination, reading it fails or returns a prefix of `recs`. -/
+theorem C19_writer_crash_torn (h0 : Hdr) (hw0 : h0.WF) (hc0 : h0.count = 0) (vb : Bytes)
+    (byReturn doubles : List Nat) (evlrStart nEvlrs : Nat) (recs : List Rec) (n : Nat) (hn : n ≤ recs.length)
+    (hw' : (C07.withStats h0 n byReturn doubles evlrStart nEvlrs).WF)
+    (hoff32 : base h0.vMinor + h0.extraHeader.length + vb.length + h0.extraVlr.length < 2 ^ 32)
+    (chunks : List Bytes) (m : Nat) (hch : chunks.flatten = recs.flatten.take m)
+    (hpos : 0 < h0.recLen) (hrec : ∀ r ∈ recs, r.length = h0.recLen) (k : Nat) :
+    let img := image [] (writerLog (encForm h0 vb) chunks []
+      (encForm (C07.withStats h0 n byReturn doubles evlrStart nEvlrs) vb)) k
+    (∃ e, readFile img = .error e) ∨ (∃ r, readFile img = .ok r ∧ IsPrefix r.records recs) := by
+  intro img
+  have himg : img = image [] (writerLog (encForm h0 vb) chunks []
+      (encForm (C07.withStats h0 n byReturn doubles evlrStart nEvlrs) vb)) k := rfl
+  clear_value img
+  generalize hF : C07.withStats h0 n byReturn doubles evlrStart nEvlrs = hf at *
+  have l0 := encForm_length h0 hw0 vb
+  have l1 : (encForm hf vb).length = (encForm h0 vb).length := by
+    rw [l0, ← hF]; exact encForm_length _ (hF ▸ hw') vb
+  have hb := base_ge h0.vMinor hw0.minor
+  -- the header-rewrite shape, for any j
+  have shape3 : ∀ j, j ≤ (encForm hf vb).length →
+      (∃ e, readFile ((encForm hf vb).take j ++ (encForm h0 vb).drop j ++ (recs.flatten.take m ++ [])) = .error e) ∨
+      (∃ r, readFile ((encForm hf vb).take j ++ (encForm h0 vb).drop j ++ (recs.flatten.take m ++ [])) = .ok r ∧ IsPrefix r.records recs) := by
+    intro j hj
+    subst hF
+    have := C19_rewrite_session_cut h0 hw0 vb n byReturn doubles evlrStart nEvlrs hw' hoff32 recs [] m j hj hpos hrec
+      (by omega) hn
+    simpa using this
+  -- the shape before the rewrite: the initial header followed by anything
+  have shape2 : ∀ t : Bytes,
+      (∃ e, readFile (encForm h0 vb ++ t) = .error e) ∨
+      (∃ r, readFile (encForm h0 vb ++ t) = .ok r ∧ IsPrefix r.records recs) := by
+    intro t
+    have := C19_rewrite_session h0 hw0 vb h0.count h0.byReturn h0.doubles h0.evlrStart h0.nEvlrs
+      (by rw [withStats_self]; exact hw0) hoff32 [] t 0 (Nat.zero_le _) hpos (by intro r hr; cases hr) (Nat.le_refl _)
+      (by rw [hc0]; exact Nat.zero_le _)
+    simp only [List.take_zero, List.drop_zero, List.nil_append, List.flatten_nil] at this
+    rcases this with h | ⟨r, hr, ⟨t', ht'⟩⟩
+    · exact Or.inl h
+    · have : r.records = [] := by
+        cases hrr : r.records with
+        | nil => rfl
+        | cons x xs => rw [hrr] at ht'; cases ht'
+      exact Or.inr ⟨r, hr, by rw [this]; exact isPrefix_nil recs⟩
+  unfold writerLog at himg
+  simp only [List.cons_append, image] at himg
+  by_cases hk0 : k = 0
+  · simp only [hk0, if_true] at himg
+    rw [himg]; exact Or.inl (readFile_tiny [] (by decide))
+  · simp only [hk0, if_false] at himg
+    by_cases hk1 : k < (encForm h0 vb).length
+    · simp only [hk1, if_true] at himg
+      have hwr : writeAt [] 0 ((encForm h0 vb).take k) = (encForm h0 vb).take k := by
+        unfold writeAt; simp
+      rw [hwr] at himg
+      by_cases h227 : k < 227
+      · rw [himg]; exact Or.inl (readFile_tiny _ (by simp [List.length_take]; omega))
+      · have hfo : fileOffset img = (encForm h0 vb).length := by
+          rw [himg]
+          unfold fileOffset
+          have hs : (((encForm h0 vb).take k).drop 96).take 4 = slice 96 4 (encForm h0 vb) := by
+            unfold slice
+            rw [List.drop_take, List.take_take]
+            congr 1; omega
+          rw [hs, (encForm_slices h0 hw0 vb).2.1, leNat_leBytes_of_lt _ _ (by simpa using hoff32), l0]
+        rcases C19_short_file img (by rw [hfo, himg]; simp [List.length_take]; omega) with h | ⟨r, hr, hrr⟩
+        · exact Or.inl h
+        · exact Or.inr ⟨r, hr, by rw [hrr]; exact isPrefix_nil recs⟩
+    · simp only [hk1, if_false] at himg
+      have hwr : writeAt [] 0 (encForm h0 vb) = encForm h0 vb := by unfold writeAt; simp
+      rw [hwr] at himg
+      have hgo : writerLog.go (encForm h0 vb).length chunks ++
+          [((encForm h0 vb).length + chunks.flatten.length, []), (0, encForm hf vb)] =
+          writerLog.go (encForm h0 vb).length (chunks ++ [[]]) ++ [(0, encForm hf vb)] := by
+        rw [go_append_single]; simp
+      rw [hgo, image_seq] at himg
+      have hbody : (chunks ++ [[]]).flatten = recs.flatten.take m ++ [] := by simp [hch]
+      rw [hbody] at himg
+      by_cases hk2 : k - (encForm h0 vb).length < (recs.flatten.take m ++ []).length
+      · simp only [hk2, if_true] at himg
+        rw [himg]; exact shape2 _
+      · simp only [hk2, if_false, image] at himg
+        generalize hk3 : k - (encForm h0 vb).length - (recs.flatten.take m ++ []).length = k3 at himg
+        by_cases hz : k3 = 0
+        · simp only [hz, if_true] at himg
+          rw [himg]; exact shape2 _
+        · simp only [hz, if_false] at himg
+          by_cases hlt : k3 < (encForm hf vb).length
+          · simp only [hlt, if_true] at himg
+            have hw3 : writeAt (encForm h0 vb ++ (recs.flatten.take m ++ [])) 0 ((encForm hf vb).take k3) =
+                (encForm hf vb).take k3 ++ (encForm h0 vb).drop k3 ++ (recs.flatten.take m ++ []) := by
+              unfold writeAt
+              simp only [Nat.not_lt_zero, if_false, List.take_zero, List.nil_append, Nat.zero_add, List.length_take]
+              rw [Nat.min_eq_left (by omega), List.drop_append_of_le_length (by omega), List.append_assoc]
+            rw [himg, hw3]; exact shape3 k3 (by omega)
+          · simp only [hlt, if_false] at himg
+            rw [writeAt_zero _ _ _ l1] at himg
+            have := shape3 (encForm hf vb).length (Nat.le_refl _)
+            rw [List.take_length, List.drop_of_length_le (by omega)] at this
+            rw [himg]; simpa using this
+
+
 /-- **an intact header over a record area in any state** (every crash point of an append session
     before its header rewrite; every truncation after the header): the header advertises `h.count`
     points, the record area starts with at least that many stored records followed by anything —
@@ -794,24 +958,28 @@ theorem isPrefix_append_right {α} {a b : List α} (c : List α) (h : IsPrefix a
   obtain ⟨t, ht⟩ := h
   exact ⟨t ++ c, by rw [← List.append_assoc, ht]⟩
 
-/-- **C19, every crash point of an append session.** The file holds a header `h` advertising the
-    records `oldRecs`, followed by anything (`T`: its EVLRs). The session writes the new chunks over
-    what follows the old records, then the EVLR bytes, then rewrites the header in place with the new
-    statistics. Whatever number `k` of bytes of that write stream reached the file, reading it fails or
-    returns a prefix of `oldRecs ++ newRecs`. -/
-theorem C19_appender_crash (h : Hdr) (hw : h.WF) (vb : Bytes) (oldRecs newRecs : List Rec) (T : Bytes)
+/-- **C19, every crash point of an append session, also one in which a write failed.** The file holds a
+    header `h` advertising the records `oldRecs`, followed by anything (`T`: its EVLRs). The session writes
+    the new chunks over what follows the old records - `newRecs` completely, then possibly `torn`, the bytes
+    that a failing write still stored and that were never counted (`append_points` counts after the write) -
+    then, when the caller's clean-up closes the session, the EVLR bytes, and rewrites the header in place
+    with the statistics of `oldRecs ++ newRecs`. Whatever number `k` of bytes of that write stream reached
+    the file (all of them: the session was closed after the failure), reading it fails or returns a prefix
+    of `oldRecs ++ newRecs`. -/
+theorem C19_appender_crash_torn (h : Hdr) (hw : h.WF) (vb : Bytes) (oldRecs newRecs : List Rec) (T : Bytes)
     (hcount : h.count = oldRecs.length)
     (byReturn doubles : List Nat) (evlrStart nEvlrs : Nat)
     (hw' : (C07.withStats h (oldRecs ++ newRecs).length byReturn doubles evlrStart nEvlrs).WF)
     (hoff32 : base h.vMinor + h.extraHeader.length + vb.length + h.extraVlr.length < 2 ^ 32)
-    (chunks : List Bytes) (hch : chunks.flatten = newRecs.flatten) (eb : Bytes)
+    (chunks : List Bytes) (torn : Bytes) (hch : chunks.flatten = newRecs.flatten ++ torn) (eb0 : Bytes)
     (hpos : 0 < h.recLen) (hrec : ∀ r ∈ oldRecs ++ newRecs, r.length = h.recLen) (k : Nat) :
     let file := encForm h vb ++ oldRecs.flatten ++ T
-    let img := image file (appenderLog (encForm h vb ++ oldRecs.flatten).length chunks eb
+    let img := image file (appenderLog (encForm h vb ++ oldRecs.flatten).length chunks eb0
       (encForm (C07.withStats h (oldRecs ++ newRecs).length byReturn doubles evlrStart nEvlrs) vb)) k
     (∃ e, readFile img = .error e) ∨ (∃ r, readFile img = .ok r ∧ IsPrefix r.records (oldRecs ++ newRecs)) := by
   intro file img
-  have himg : img = image (encForm h vb ++ oldRecs.flatten ++ T) (appenderLog (encForm h vb ++ oldRecs.flatten).length chunks eb
+  generalize heb : torn ++ eb0 = eb
+  have himg : img = image (encForm h vb ++ oldRecs.flatten ++ T) (appenderLog (encForm h vb ++ oldRecs.flatten).length chunks eb0
       (encForm (C07.withStats h (oldRecs ++ newRecs).length byReturn doubles evlrStart nEvlrs) vb)) k := rfl
   clear_value img file
   have l0 := encForm_length h hw vb
@@ -839,11 +1007,11 @@ theorem C19_appender_crash (h : Hdr) (hw : h.WF) (vb : Bytes) (oldRecs newRecs :
   unfold appenderLog at himg
   rw [ago_eq] at himg
   have hgo : writerLog.go (encForm h vb ++ oldRecs.flatten).length chunks ++
-      [((encForm h vb ++ oldRecs.flatten).length + chunks.flatten.length, eb), (0, encF)] =
-      writerLog.go (encForm h vb ++ oldRecs.flatten).length (chunks ++ [eb]) ++ [(0, encF)] := by
+      [((encForm h vb ++ oldRecs.flatten).length + chunks.flatten.length, eb0), (0, encF)] =
+      writerLog.go (encForm h vb ++ oldRecs.flatten).length (chunks ++ [eb0]) ++ [(0, encF)] := by
     rw [go_append_single]; simp
   rw [hgo, image_over] at himg
-  have hbody : (chunks ++ [eb]).flatten = newRecs.flatten ++ eb := by simp [hch]
+  have hbody : (chunks ++ [eb0]).flatten = newRecs.flatten ++ eb := by simp [hch, ← heb, List.append_assoc]
   rw [hbody] at himg
   by_cases hk2 : k < (newRecs.flatten ++ eb).length
   · simp only [hk2, if_true] at himg
@@ -876,6 +1044,21 @@ theorem C19_appender_crash (h : Hdr) (hw : h.WF) (vb : Bytes) (oldRecs newRecs :
         simp only [List.append_nil] at this
         rw [himg]; exact this
 
+
+/-- **C19, every crash point of an append session** (no failing write): the case `torn = []` -/
+theorem C19_appender_crash (h : Hdr) (hw : h.WF) (vb : Bytes) (oldRecs newRecs : List Rec) (T : Bytes)
+    (hcount : h.count = oldRecs.length)
+    (byReturn doubles : List Nat) (evlrStart nEvlrs : Nat)
+    (hw' : (C07.withStats h (oldRecs ++ newRecs).length byReturn doubles evlrStart nEvlrs).WF)
+    (hoff32 : base h.vMinor + h.extraHeader.length + vb.length + h.extraVlr.length < 2 ^ 32)
+    (chunks : List Bytes) (hch : chunks.flatten = newRecs.flatten) (eb : Bytes)
+    (hpos : 0 < h.recLen) (hrec : ∀ r ∈ oldRecs ++ newRecs, r.length = h.recLen) (k : Nat) :
+    let file := encForm h vb ++ oldRecs.flatten ++ T
+    let img := image file (appenderLog (encForm h vb ++ oldRecs.flatten).length chunks eb
+      (encForm (C07.withStats h (oldRecs ++ newRecs).length byReturn doubles evlrStart nEvlrs) vb)) k
+    (∃ e, readFile img = .error e) ∨ (∃ r, readFile img = .ok r ∧ IsPrefix r.records (oldRecs ++ newRecs)) :=
+  C19_appender_crash_torn h hw vb oldRecs newRecs T hcount byReturn doubles evlrStart nEvlrs hw' hoff32 chunks [] (by simpa using hch) eb
+    hpos hrec k
 
 /-- **C19, truncated files.** A complete file (header advertising at most the records stored, the
     records, anything after them) cut at any length `L`: reading fails or returns a prefix of the
@@ -979,5 +1162,26 @@ example (k : Nat) :
     (by decide) [recs.flatten] (by simp) [] (by decide)
     (by intro r hr; simp only [recs, List.mem_replicate] at hr; rw [hr.2]; rfl) k
 
+
+/-- non-vacuity of `C19_appender_crash_torn`: a file with two records, an append session that stored one more record
+    completely and then 7 bytes of a write that failed, closed by its with-block: every hypothesis is met -/
+example (k : Nat) :
+    let old : List Rec := List.replicate 2 (List.replicate 20 1)
+    let new : List Rec := [List.replicate 20 2]
+    let torn : Bytes := List.replicate 7 3
+    let img := image (encForm (exHdr 2) [] ++ old.flatten ++ []) (appenderLog (encForm (exHdr 2) [] ++ old.flatten).length
+      [new.flatten ++ torn] []
+      (encForm (C07.withStats (exHdr 2) (old ++ new).length (List.replicate 15 0) (List.replicate 12 0) 0 0) [])) k
+    (∃ e, readFile img = .error e) ∨ (∃ r, readFile img = .ok r ∧ IsPrefix r.records (old ++ new)) := by
+  intro old new torn
+  have hw' : (C07.withStats (exHdr 2) (old ++ new).length (List.replicate 15 0) (List.replicate 12 0) 0 0).WF := by
+    have : C07.withStats (exHdr 2) (old ++ new).length (List.replicate 15 0) (List.replicate 12 0) 0 0 = exHdr 3 := rfl
+    rw [this]; exact exHdr_wf 3 (by decide)
+  exact C19_appender_crash_torn (exHdr 2) (exHdr_wf 2 (by decide)) [] old new [] rfl (List.replicate 15 0) (List.replicate 12 0) 0 0 hw'
+    (by decide) [new.flatten ++ torn] torn (by simp) [] (by decide)
+    (by intro r hr; simp only [old, new, List.mem_append, List.mem_replicate, List.mem_singleton] at hr
+        rcases hr with hr | hr
+        · rw [hr.2]; rfl
+        · rw [hr]; rfl) k
 
 end LasModel.Props.C19
